@@ -327,6 +327,9 @@ type C12Save struct {
 	Palette []int  `json:"palette"` // global ids, distinct
 	Seed    uint64 `json:"seed"`    // indices are derived from the seed
 	Fill    int    `json:"fill"`    // 0 pseudo-random, 1 cyclic over the palette, 2 all last
+	// Muts: Set(pos, id) calls applied to a first container built from the same palette and data
+	// slices before the second one is examined (each container is its own array)
+	Muts [][2]int `json:"muts,omitempty"`
 }
 
 func (c C12Save) indices(n int) []uint64 {
@@ -362,23 +365,44 @@ func c12CheckSave(c C12Save) *pbt.Violation {
 	if err != nil {
 		return pbt.V("harness:c12save", "harness", "reference cannot read its own save form: %v", err)
 	}
-	var cont container
+	var cont, sibling container
 	if pv, stack := pbt.Try(func() {
 		if c.Kind == "blocks" {
 			p := make([]level.BlocksState, len(c.Palette))
 			for i, v := range c.Palette {
 				p[i] = level.BlocksState(v)
 			}
+			sibling = blocksC{level.NewStatesPaletteContainerWithData(kind.Len, data, p)}
 			cont = blocksC{level.NewStatesPaletteContainerWithData(kind.Len, data, p)}
 		} else {
 			p := make([]level.BiomesState, len(c.Palette))
 			for i, v := range c.Palette {
 				p[i] = level.BiomesState(v)
 			}
+			sibling = biomesC{level.NewBiomesPaletteContainerWithData(kind.Len, data, p)}
 			cont = biomesC{level.NewBiomesPaletteContainerWithData(kind.Len, data, p)}
 		}
 	}); pv != nil {
 		return pbt.V(pbt.PanicKey("c12.withdata", stack), "containers built from saved palette+data", "New…WithData(%s, palette of %d, %d longs = %d bits) panicked: %v", c.Kind, len(c.Palette), len(data), bits, pv)
+	}
+	// the sibling built from the same slices is mutated first: it is its own array
+	sibModel := make([]int, kind.Len)
+	for i := range sibModel {
+		sibModel[i] = c.Palette[want[i]]
+	}
+	for _, m := range c.Muts {
+		pos := ((m[0] % kind.Len) + kind.Len) % kind.Len
+		if pv, stack := pbt.Try(func() { sibling.Set(pos, m[1]) }); pv != nil {
+			return pbt.V(pbt.PanicKey("c12.withdata.set", stack), "a container built from save data behaves as an array", "Set(%d,%d) panicked: %v", pos, m[1], pv)
+		}
+		sibModel[pos] = m[1]
+	}
+	if len(c.Muts) > 0 {
+		for i := 0; i < kind.Len; i++ {
+			if g := sibling.Get(i); g != sibModel[i] {
+				return pbt.V("c12.withdata.sets", "a container built from save data behaves as an array under Set", "%s palette of %d: after %v Get(%d)=%d, want %d", c.Kind, len(c.Palette), c.Muts, i, g, sibModel[i])
+			}
+		}
 	}
 	for i := 0; i < kind.Len; i++ {
 		var got int
@@ -387,8 +411,8 @@ func c12CheckSave(c C12Save) *pbt.Violation {
 				"%s palette of %d (%d bits, %d longs): Get(%d) panicked: %v", c.Kind, len(c.Palette), bits, len(data), i, pv)
 		}
 		if got != c.Palette[want[i]] {
-			return pbt.V("c12.withdata.value", "containers built from saved palette+data agree with the same reading",
-				"%s palette of %d entries (%d bits, %d longs): Get(%d)=%d, save form says palette[%d]=%d", c.Kind, len(c.Palette), bits, len(data), i, got, want[i], c.Palette[want[i]])
+			return pbt.V("c12.withdata.value", "containers built from saved palette+data agree with the same reading (and no Set on another container changes them)",
+				"%s palette of %d entries (%d bits, %d longs): Get(%d)=%d, save form says palette[%d]=%d (Set calls on a sibling container built from the same slices: %v)", c.Kind, len(c.Palette), bits, len(data), i, got, want[i], c.Palette[want[i]], c.Muts)
 		}
 	}
 	// and it must be writable to the wire like any other container
@@ -429,11 +453,25 @@ var c12Save = pbt.Register(pbt.Prop[C12Save]{
 		}
 		c.Seed = rapid.Uint64().Draw(t, "seed")
 		c.Fill = rapid.IntRange(0, 2).Draw(t, "fill")
+		if rapid.Bool().Draw(t, "mutate_sibling") {
+			n := rapid.IntRange(1, 6).Draw(t, "nmuts")
+			for i := 0; i < n; i++ {
+				v := rapid.SampledFrom(c.Palette).Draw(t, "mutv")
+				if rapid.IntRange(0, 4).Draw(t, "newv") == 2 {
+					v = rapid.SampledFrom(genPool(t, c.Kind)).Draw(t, "mutv2")
+				}
+				c.Muts = append(c.Muts, [2]int{rapid.IntRange(0, 4095).Draw(t, "mutpos"), v})
+			}
+		}
 		return c
 	},
 	Check: c12CheckSave,
 	Classify: func(c C12Save) (bool, []string, []byte) {
-		return len(c.Palette) > 1, []string{fmt.Sprintf("save_%s_palette_%d", c.Kind, len(c.Palette))}, nil
+		labels := []string{fmt.Sprintf("save_%s_palette_%d", c.Kind, len(c.Palette))}
+		if len(c.Muts) > 0 {
+			labels = append(labels, "sibling_container_mutated_first")
+		}
+		return len(c.Palette) > 1, labels, nil
 	},
 	Quick: 24000, Thorough: 480000,
 })
